@@ -222,7 +222,9 @@ def run_gcode(I, gcode, prep=None, subcode=None):
     if prep is not None:
         prep(I, st, H, S)
     cmd = SStr('CMD', nonempty=True)
-    res = I.run_method(st, 'GcodeHandlers', 'handleGcode', H, [cmd, Str(gcode), NONE if subcode is None else subcode])
+    # the sub code OctoPrint passes along is unknown (None for most commands, an integer for G38.2 and the like)
+    sub = I.maybe(('null', 'arg:subcode'), Opaque('SUBCODE')) if subcode is None else subcode
+    res = I.run_method(st, 'GcodeHandlers', 'handleGcode', H, [cmd, Str(gcode), sub])
     return [Path('handleGcode(%s)' % gcode, s, v, {'H': H, 'S': S}) for (s, v) in res]
 
 
